@@ -69,7 +69,16 @@ def _run(w, wn, s, fail_at, conv_err, backup, natural=False):
 
 
 def table(wn, res, out):
-    """rows [t, vals] of a results object; fills the well-formedness facts"""
+    """rows [t, vals] of a results object; fills the well-formedness facts (tables that cannot even be read are malformed)"""
+    try:
+        return _table(wn, res, out)
+    except Exception as e:
+        out["cols_ok"] = False
+        out["malformed"] = "%s: %s" % (type(e).__name__, str(e)[:100])
+        return []
+
+
+def _table(wn, res, out):
     import numpy as np
     nodes = list(wn.node_name_list)
     links = list(wn.link_name_list)
